@@ -342,6 +342,39 @@ func (r *rctx) stmt(s *S) {
 		case "closure":
 			r.line("f%d := func(x int) int { a += x; return a }", s.ID)
 			r.line("tr.V(%d, f%d(1))", s.ID, s.ID)
+		case "vardecl":
+			r.line("var z%d, y%d int = a, b", s.ID, s.ID)
+			r.line("var q%d = tr.V(%d, z%d+y%d)", s.ID, s.ID, s.ID, s.ID)
+			r.line("a = q%d %% 997", s.ID)
+		case "multi":
+			r.line("a, b = b%%997, (a+b)%%997")
+			r.line("b++")
+			r.line("a <<= 1")
+			r.line("a %%= 1009")
+		case "emptyblock":
+			r.line("{")
+			r.line("}")
+			r.line(";")
+			r.line("tr.E(%d)", s.ID)
+		case "chan":
+			r.line("ch%d := make(chan int, 1)", s.ID)
+			r.line("ch%d <- a + 1", s.ID)
+			r.line("a = tr.V(%d, <-ch%d)", s.ID, s.ID)
+		case "goclosure":
+			r.line("done%d := make(chan int)", s.ID)
+			r.line("go func(x int) { done%d <- x * 2 }(a)", s.ID)
+			r.line("a = tr.V(%d, <-done%d) %% 991", s.ID, s.ID)
+		case "structlit":
+			r.line("type pt%d struct{ x, y int }", s.ID)
+			r.line("p%d := &pt%d{x: a, y: b}", s.ID, s.ID)
+			r.line("p%d.x += p%d.y", s.ID, s.ID)
+			r.line("a = tr.V(%d, p%d.x) %% 983", s.ID, s.ID)
+		case "recover":
+			r.line("func() {")
+			r.line("\tdefer func() { tr.V(%d, recover() != nil) }()", s.ID)
+			r.line("\tvar m%d map[int]int", s.ID)
+			r.line("\tm%d[a] = 1", s.ID)
+			r.line("}()")
 		case "set":
 			r.line("a = tr.V(%d, a+1)", s.ID)
 		default:
@@ -411,6 +444,8 @@ func (r *rctx) ifStmt(s *S, head string) {
 		cond = fmt.Sprintf("c%d := tr.B(%d); c%d", s.ID, s.ID*10, s.ID)
 	case "eff":
 		cond = fmt.Sprintf("tr.E(%d); tr.B(%d)", s.ID*10+1, s.ID*10)
+	case "assign":
+		cond = fmt.Sprintf("a = a + %d; tr.B(%d) || a < 0", s.ID, s.ID*10)
 	case "yield": // unsupported (C12)
 		cond = fmt.Sprintf("%s; tr.B(%d)", yieldStmt(s.ID*10+1, "call"), s.ID*10)
 	}
@@ -475,9 +510,17 @@ func (r *rctx) switchStmt(s *S) {
 		case s.Form == "tagless":
 			r.line("case tr.B(%d):", s.ID*10+3+i)
 		case s.Form == "type":
-			r.line("case %s:", types[i%len(types)])
+			if s.N == 7 && i == 0 && ncase == 1 {
+				r.line("case int, string:") // several types in one clause: the binding keeps the interface type
+			} else {
+				r.line("case %s:", types[i%len(types)])
+			}
 		default:
-			r.line("case %d:", i)
+			if s.N == 7 && i == 0 {
+				r.line("case %d, %d:", i, 100+i) // several values in one clause
+			} else {
+				r.line("case %d:", i)
+			}
 		}
 		r.ind++
 		if s.Form == "type" {
@@ -526,6 +569,11 @@ func (r *rctx) forStmt(s *S) {
 		} else {
 			r.line("for %s; tr.B(%d); %s {", init, s.ID*10, post)
 		}
+	case "3c2": // two counters, parallel assignment in the post statement
+		r.line("for %s, j%d := 0, %d; %s < j%d; %s, j%d = %s+1, j%d-1 {", v, s.ID, bound+2, v, s.ID, v, s.ID, v, s.ID)
+		r.ind++
+		r.line("tr.U(%s, j%d)", v, s.ID)
+		r.ind--
 	case "nip": // no init, tape-steered condition, post mutates state that yields read (the same For value may be re-run)
 		r.line("for ; tr.B(%d); a++ {", s.ID*10)
 	case "3cn": // three clauses without a condition: left by break/return in the body
@@ -837,9 +885,9 @@ type Profile struct {
 	PanicPct  int // percentage of statements that are (mostly tape-guarded) panics
 }
 
-var Ctl = Profile{Name: "ctl", MaxDepth: 4, MaxStmts: 5, YieldForm: []string{"call", "call", "lit", "var", "expr", "call1", "glob", "neg", "conv", "negcall", "iife"}, EffForm: []string{"e", "e", "mut", "set", "globmut", "closure"}}
+var Ctl = Profile{Name: "ctl", MaxDepth: 4, MaxStmts: 5, YieldForm: []string{"call", "call", "lit", "var", "expr", "call1", "glob", "neg", "conv", "negcall", "iife"}, EffForm: []string{"e", "e", "mut", "set", "globmut", "closure", "vardecl", "multi", "emptyblock", "chan", "goclosure", "structlit", "recover"}}
 var Panic = Profile{Name: "panic", MaxDepth: 3, MaxStmts: 5, YieldForm: []string{"call", "var", "lit", "boom1", "negcall"}, EffForm: []string{"e", "set", "mut", "closure"}, PanicPct: 12}
-var Fx = Profile{Name: "fx", MaxDepth: 3, MaxStmts: 6, YieldForm: []string{"var", "expr", "call", "var", "call1", "glob", "lit", "neg", "pos", "paren", "conv", "deref", "index", "iife", "negcall", "convcall"}, EffForm: []string{"mut", "set", "e", "set", "globmut", "closure"}}
+var Fx = Profile{Name: "fx", MaxDepth: 3, MaxStmts: 6, YieldForm: []string{"var", "expr", "call", "var", "call1", "glob", "lit", "neg", "pos", "paren", "conv", "deref", "index", "iife", "negcall", "convcall"}, EffForm: []string{"mut", "set", "e", "set", "globmut", "closure", "vardecl", "multi", "chan", "structlit"}}
 
 type rgen struct {
 	rng  *rand.Rand
@@ -908,7 +956,7 @@ func (g *rgen) stmt(depth int, c wctx) *S {
 			}
 		}
 		if g.rng.Intn(6) == 0 {
-			s.Init = g.pick([]string{"decl", "eff"})
+			s.Init = g.pick([]string{"decl", "eff", "assign"})
 		}
 		return s
 	case r < 76:
@@ -922,12 +970,15 @@ func (g *rgen) stmt(depth int, c wctx) *S {
 			}
 		}
 		s.Def = g.rng.Intn(2) == 0
+		if g.rng.Intn(4) == 0 {
+			s.N = 7 // multi-value / multi-type first clause
+		}
 		if g.rng.Intn(5) == 0 {
 			s.Init = g.pick([]string{"decl", "yield", "eff", "yfrom"})
 		}
 		return s
 	case r < 94:
-		s := &S{K: "for", Form: g.pick([]string{"3c", "3c", "3cb", "cond", "inf", "3cn", "nip"}), N: 1 + g.rng.Intn(3)}
+		s := &S{K: "for", Form: g.pick([]string{"3c", "3c", "3cb", "cond", "inf", "3cn", "nip", "3c2"}), N: 1 + g.rng.Intn(3)}
 		if s.Form == "3c" {
 			s.Post = g.pick([]string{"inc", "inc", "inc", "yield", "eff"})
 			if g.rng.Intn(6) == 0 {
